@@ -24,13 +24,13 @@ from vsim.tape import Tape, mix
 from vsim.world import World, dec, enc
 
 ID = "C11"
-RUNS = {"quick": 320, "thorough": 6400}
+RUNS = {"quick": 480, "thorough": 6400}
 WALL = {"quick": 3600, "thorough": 8 * 3600}
 
 STEP_CAP_BASE = 50_000_000      # >= 16x the largest count observed on the unchanged tree without many_funcs (3.1M)
 STEP_CAP_HEAVY = 20_000_000_000  # many_funcs inputs are super-linear in the pinned tree (2000 functions: 84M events)
 OP_TIMEOUT = 300          # heavy (many_funcs) scenarios
-OP_TIMEOUT_LIGHT = 120    # everything else: the largest legitimate operation observed takes < 10 s
+OP_TIMEOUT_LIGHT = 180    # everything else: the largest legitimate operation observed takes < 10 s
 CROSS_FILE = ("dry.", "stringly-typed.")
 KNOWN_LANG_EXT = (".py", ".js", ".ts", ".tsx", ".jsx", ".rs")
 
@@ -65,7 +65,8 @@ def gen(run_seed: int, tier: str) -> dict:
     offenders = []
     heavy_used = False
     allow_blowup = t.chance(1, 3, "blowup_run") or bool(os.environ.get("VSIM_C11_FORCE_BLOWUP"))
-    for i in range(1 + t.draw(3, "noff") if not t.chance(1, 2, "one") else 1):
+    # several offenders per scenario: each is an independent experiment on the same (costly) set of operations
+    for i in range(2 + t.draw(5, "noff") if not t.chance(1, 4, "one") else 1):
         lang = t.pick(cpool.LANGS + ["python", "unknown"], "off.lang")
         if t.chance(1, 6, "empty_base"):
             base = ""
@@ -76,7 +77,7 @@ def gen(run_seed: int, tier: str) -> dict:
         d = t.pick(cpool.DIRS, "off.dir")
         rel = (d + "/" if d else "") + f"offender_{i}{ext}"
         fs, data = [], base.encode()
-        for _ in range(1 + t.draw(4, "nfaults") if not t.chance(1, 2, "single") else 1):
+        for _ in range(1 + t.draw(3, "nfaults") if not t.chance(2, 3, "single") else 1):
             f = faults.draw_fault(t, data, lang, allow_blowup, force_blowup=bool(os.environ.get("VSIM_C11_FORCE_BLOWUP")))
             if f["kind"] == "many_funcs":
                 # some analyzers of the pinned tree are super-linear in the number of functions (2400 tiny
